@@ -1,5 +1,6 @@
 """G1 - token-level sentence generator for the published grammar (frozen copy of the productions),
 rendering with ground-truth token boundaries, one-token mutations and the exhaustive alphabet."""
+import collections.abc
 from decimal import Decimal
 
 from lib.reflex import string_value
@@ -228,12 +229,54 @@ def render_layout(types, rnd, bracket_newlines=0.25, extra_blanks=0.2, comments=
 KEPT_ALIVE = []          # suspended list_names generators that stay referenced (their cleanup code has not run)
 
 
+class ToggleCache(dict):
+    """a host parse cache whose store can fail (a bounded cache that refuses, a backing store that is down): armed by `fail_next`, it raises once"""
+    fail_next = False
+
+    def __setitem__(self, k, v):
+        if self.fail_next:
+            self.fail_next = False
+            raise MemoryError('cache store refused')
+        dict.__setitem__(self, k, v)
+
+
+class StripKeyCache(collections.abc.MutableMapping):
+    """a host parse cache that normalises its keys (surrounding blank space is insignificant for a tree, which carries no positions)"""
+
+    def __init__(self):
+        self.d = {}
+
+    def __getitem__(self, k):
+        return self.d[k.strip()]
+
+    def __setitem__(self, k, v):
+        self.d[k.strip()] = v
+
+    def __delitem__(self, k):
+        del self.d[k.strip()]
+
+    def __iter__(self):
+        return iter(self.d)
+
+    def __len__(self):
+        return len(self.d)
+
+
 def earlier_call(P, r):
     """one arbitrary earlier call on the same parser: failed parses at bracket depth or after complete lines, abandoned / suspended-and-kept /
     failing list_names, evals that fail or succeed, with a dict, with names=None, with a read-only mapping"""
-    k = r.randrange(15)
+    k = r.randrange(16)
     try:
-        if k == 12:
+        if k == 15:
+            # the host's parse cache refuses to store the tree of a valid program (the call fails with the cache's own error)
+            if isinstance(getattr(P, 'parse_cache', None), ToggleCache):
+                P.parse_cache.fail_next = True
+            try:
+                P.eval('zq1 = 5\nzq2 = zq1 + nope_zq%d\nzq3 = [zq2]' % r.randrange(10 ** 6), {})
+            finally:
+                if isinstance(getattr(P, 'parse_cache', None), ToggleCache):
+                    P.parse_cache.fail_next = False
+        elif k == 12:
             # arithmetic that fails midway (invalid operation, overflow, division by zero, a refused quantize) or raises decimal signals
             P.eval(r.choice(['(0 - 8) ** 0.5', '10 ** 999999999', '0 ** (0 - 1)', '(0 - 2.5) ** 1.5', 'round(1.5, 200)', '10 ** 999999 * 10 ** 999999', '1 / 0 + 1',
                              'x = 1\nx /= 0', '10 ** (0 - 2000000)', 'sum([1, "a"])', 'max([])', 'int("x")', 'float("1e999") * 0']), {}, None, 200)
